@@ -31,6 +31,8 @@ RULE = ('all ordered pairs of the 21 registered smoothers + None x iterations {1
         'flag model == ml.symmetric_smoothing; every distinct flag-true (method pair, sweep pair, kwargs-equal?) class: '
         'dense M (V, W) Hermitian to 1e-10 and positive definite on a real and a complex Hermitian problem.  '
         'Non-trivial: a configuration with two smoothing levels or more; distinct = distinct configuration.')
+RULE += (' '
+         'Oracle problems: real CSR, complex CSR, real 2x2 BSR.')
 TRUSTED = ['ast extraction of SYMMETRIC_RELAXATION / KRYLOV_RELAXATION / _setup_call keys from pyamg/relaxation/smoothing.py']
 PARTIAL = ['flag soundness (flag true => adjoint smoother pair) is decided by the oracle per class, not proved',
            'complex Hermitian case: oracle only', 'strict energy contraction (hypothesis of the positive-definiteness theorem): measured by the oracle']
